@@ -291,8 +291,9 @@ def run_driver(binary, script_path, env_extra=None, timeout=3600):
 
 
 def run_parallel(binary, cases, tag, jobs=None):
-    """Run the cases through a driver in `jobs` parallel shards; returns {case id: lines}, stderr tail."""
-    jobs = jobs or min(NCPU, max(1, len(cases) // 200))
+    """Run the cases through a driver in `jobs` parallel shards; returns {case id: lines}, stderr tail.
+    Output goes to files (not pipes) so that all shards really run concurrently."""
+    jobs = jobs or min(NCPU, max(1, len(cases) // 100))
     shards = [cases[i::jobs] for i in range(jobs)]
     procs = []
     env = dict(os.environ)
@@ -303,15 +304,26 @@ def run_parallel(binary, cases, tag, jobs=None):
             continue
         p = os.path.join(CACHE, "script_%s_%d_%d.txt" % (tag, os.getpid(), i))
         write_script(sh, p)
-        procs.append((p, subprocess.Popen([binary, p], stdout=subprocess.PIPE, stderr=subprocess.PIPE, env=env)))
+        fo = open(p + ".out", "wb")
+        fe = open(p + ".err", "wb")
+        procs.append((p, fo, fe, subprocess.Popen([binary, p], stdout=fo, stderr=fe, env=env)))
     out = {}
     errs = []
-    for p, pr in procs:
-        so, se = pr.communicate()
-        out.update(split_output(so.decode("latin-1")))
+    for p, fo, fe, pr in procs:
+        pr.wait()
+        fo.close()
+        fe.close()
+        with open(p + ".out", "rb") as f:
+            out.update(split_output(f.read().decode("latin-1")))
+        with open(p + ".err", "rb") as f:
+            se = f.read()
         if se:
             errs.append(se.decode("latin-1")[-2000:])
-        os.remove(p)
+        for q in (p, p + ".out", p + ".err"):
+            try:
+                os.remove(q)
+            except OSError:
+                pass
     return out, "\n".join(errs)
 
 
